@@ -251,7 +251,7 @@ pub fn gen_op(r: &mut Rng, d: Dim, out: &mut Vec<u8>, f: &Feat) {
             let s: &[u8] = *r.pick(&[&b"\x1b"[..], b"\x1b[", b"\x1b[1;", b"\x1b]0;ab", b"\x1b[?", b"\xe3\x81", b"\xf0\x9f", b"\xc3"]);
             out.extend(s);
         }
-        60..=66 => idiom(r, d, out),
+        60..=69 => idiom(r, d, out),
         _ => gen_text(r, out),
     }
 }
@@ -259,7 +259,12 @@ pub fn gen_op(r: &mut Rng, d: Dim, out: &mut Vec<u8>, f: &Feat) {
 
 /// multi-step idioms that reach rarely visited branches
 pub fn idiom(r: &mut Rng, d: Dim, out: &mut Vec<u8>) {
-    match 60 + r.below(7) {
+    let k = 60 + r.below(10);
+    idiom_n(r, d, out, k);
+}
+
+pub fn idiom_n(r: &mut Rng, d: Dim, out: &mut Vec<u8>, k: u64) {
+    match k {
         60 => {
             // wide char in the last two columns, one more char (wraps), back to column 0, combining mark
             if d.cols >= 2 {
@@ -310,6 +315,58 @@ pub fn idiom(r: &mut Rng, d: Dim, out: &mut Vec<u8>) {
             }
             out.extend(format!("\x1b[{}D", 1 + r.below(5)).as_bytes());
             gen_text(r, out);
+        }
+        67 => {
+            // origin mode inside a region, then addressing / moving with huge parameters
+            let t = 1 + r.below(u64::from(d.rows));
+            let bt = t + 1 + r.below(u64::from(d.rows));
+            out.extend(format!("\x1b[{t};{bt}r\x1b[?6h").as_bytes());
+            let big = *r.pick(&["65535", "65534", "65536", "99999", "32768"]);
+            match r.below(5) {
+                0 => out.extend(format!("\x1b[{big};{big}H").as_bytes()),
+                1 => out.extend(format!("\x1b[{big}H").as_bytes()),
+                2 => out.extend(format!("\x1b[1;{big}H").as_bytes()),
+                3 => out.extend(format!("\x1b[{big}d\x1b[{big}G").as_bytes()),
+                _ => {
+                    let fin = *r.pick(&['A', 'B', 'C', 'D', 'E', 'F', 'L', 'M', 'S', 'T', '@', 'P', 'X']);
+                    out.extend(format!("\x1b[{big}{fin}").as_bytes());
+                }
+            }
+        }
+        68 => {
+            // full reset in an unusual situation: alternate screen, region, saved cursor with a pen
+            out.extend(format!("\x1b[3{}m\x1b7", r.below(8)).as_bytes());
+            if r.chance(1, 2) {
+                out.extend(*r.pick(&[&b"\x1b[?1049h"[..], b"\x1b[?47h"]));
+            }
+            out.extend(b"\x1bc");
+            match r.below(3) {
+                0 => out.extend(b"\x1b8x"),
+                1 => out.extend(b"\x1b[?1049lx"),
+                _ => out.extend(b"\n\n\n\n\n\n\n"),
+            }
+        }
+        69 => {
+            // a wrapped row ending in (or just before) a wide character; go back onto one of the last
+            // columns of that row and erase / edit there
+            if d.cols >= 3 {
+                out.extend(b"\r");
+                let wide_at_end = r.chance(1, 2);
+                let narrow = if wide_at_end { d.cols - 2 } else { d.cols - 3 };
+                for _ in 0..narrow.min(140) {
+                    out.push(b'a' + r.below(26) as u8);
+                }
+                out.extend(r.pick(WIDE).as_bytes());
+                if !wide_at_end {
+                    out.push(b'q');
+                }
+                out.push(b'w'); // wraps: the row above is now flagged
+                out.extend(b"\x1b[A");
+                let col = d.cols - r.below(3) as u16;
+                out.extend(format!("\x1b[{col}G").as_bytes());
+                let op = *r.pick(&["\x1b[X", "\x1b[K", "\x1b[J", "\x1b[1K", "\x1b[2X", "\x1b[P", "\x1b[@", "\x1b[1J", "x", "\x1b[3X"]);
+                out.extend(op.as_bytes());
+            }
         }
         _ => {}
     }
@@ -495,7 +552,7 @@ pub fn fam_sb(r: &mut Rng) -> Case {
     let d = pick_size(r, 1);
     let cap = *r.pick(&[0usize, 1, 2, 3, usize::from(d.rows), usize::from(d.rows) + 2, 1000]);
     let mut lines = vec![format!("NEW {} {} {} 0", d.rows, d.cols, cap)];
-    let f = Feat { alt: r.chance(1, 3), ris: false, region: r.chance(1, 3), osc: false, garbage: false, modes: false, resize_csi: false };
+    let f = Feat { alt: r.chance(1, 3), ris: r.chance(1, 3), region: r.chance(1, 3), osc: false, garbage: false, modes: false, resize_csi: false };
     let steps = 2 + r.below(6);
     for _ in 0..steps {
         match r.below(6) {
@@ -512,6 +569,11 @@ pub fn fam_sb(r: &mut Rng) -> Case {
             3 => {
                 let p = param(r, d);
                 lines.push(format!("P {}", hex(format!("\x1b[{p}S").as_bytes())));
+            }
+            4 if f.ris => {
+                let mut b = vec![];
+                idiom_n(r, d, &mut b, 68);
+                lines.push(format!("P {}", hex(&b)));
             }
             _ => {
                 let b = gen_stream_n(r, d, 6, &f);
@@ -942,6 +1004,110 @@ pub fn fam_cursorfix(r: &mut Rng) -> Case {
     lines.push("DIFF state 0".into());
     lines.push("FMT state".into());
     Case { lines }
+}
+
+/// Deterministic enumeration of the dispatch tables (DESIGN 4.2 "exhaustive tables"): case i is the
+/// i-th entry; None past the end.  Each entry is tried from three pre-states.
+pub fn table_size() -> u64 {
+    table_ops().len() as u64 * 3
+}
+
+fn table_ops() -> Vec<Vec<u8>> {
+    let mut v: Vec<Vec<u8>> = vec![];
+    // all 256 bytes in ground state (C0, printable ASCII, DEL, C1 and stray UTF-8 bytes)
+    for b in 0..=255u8 {
+        v.push(vec![b]);
+    }
+    // every C1 control as a 2-byte character, and U+FFFD
+    for c in 0x80..=0x9fu32 {
+        v.push(char::from_u32(c).unwrap().to_string().into_bytes());
+    }
+    v.push("\u{fffd}".as_bytes().to_vec());
+    // ESC finals 0x30..=0x7e with zero, one, two and three intermediates
+    for fin in 0x30..=0x7eu8 {
+        for inter in [&b""[..], b"(", b"#", b" ", b"(#", b"$ ", b"(#%"] {
+            let mut s = vec![0x1b];
+            s.extend(inter);
+            s.push(fin);
+            if inter.is_empty() && matches!(fin, b'P' | b'X' | b'[' | b']' | b'^' | b'_') {
+                s.extend(b"x\x1b\\"); // a string: close it
+            }
+            v.push(s);
+        }
+    }
+    // CSI finals 0x40..=0x7e x markers x parameter shapes
+    for fin in 0x40..=0x7eu8 {
+        for marker in ["", "?", ">", "<", "="] {
+            for params in ["", "0", "1", "2", "3", "5", "65535", "1;1", "2;3", "0;0", "8;3;4", "8;;2", "8", "1:2", ";", "3;", ";3"] {
+                for inter in ["", " ", "!", "$", " !"] {
+                    if !inter.is_empty() && !(params == "" || params == "2") {
+                        continue;
+                    }
+                    v.push(format!("\x1b[{marker}{params}{inter}{}", fin as char).into_bytes());
+                }
+            }
+        }
+    }
+    // SGR single parameters 0..=255 and boundary values
+    for n in (0..=255u32).chain([256, 1000, 65535, 65536]) {
+        v.push(format!("\x1b[{n}m").into_bytes());
+    }
+    for k in [38u32, 48] {
+        for sep in [';', ':'] {
+            for i in [0u32, 1, 7, 8, 15, 16, 17, 231, 232, 255, 256] {
+                v.push(format!("\x1b[{k}{sep}5{sep}{i}m").into_bytes());
+            }
+            for (r, g, b) in [(0u32, 0u32, 0u32), (255, 255, 255), (1, 2, 3), (256, 0, 0), (0, 256, 0), (0, 0, 256)] {
+                v.push(format!("\x1b[{k}{sep}2{sep}{r}{sep}{g}{sep}{b}m").into_bytes());
+            }
+            v.push(format!("\x1b[{k}m").into_bytes());
+            v.push(format!("\x1b[{k}{sep}5m").into_bytes());
+            v.push(format!("\x1b[{k}{sep}2{sep}1{sep}2m").into_bytes());
+            v.push(format!("\x1b[{k}{sep}9{sep}1m").into_bytes());
+        }
+    }
+    // DECSET / DECRST numbers 0..=2100
+    for n in 0..=2100u32 {
+        v.push(format!("\x1b[?{n}h").into_bytes());
+        v.push(format!("\x1b[?{n}l").into_bytes());
+    }
+    // OSC with 0..=17 fields, both terminators, and an overlong one
+    for nf in 0..=17usize {
+        for term in ["\x07", "\x1b\\"] {
+            let fields: Vec<String> = (0..nf).map(|i| if i == 0 { "2".to_string() } else { format!("f{i}") }).collect();
+            v.push(format!("\x1b]{}{term}", fields.join(";")).into_bytes());
+        }
+    }
+    v.push(format!("\x1b]0;{}\x07", "x".repeat(1100)).into_bytes());
+    v.push(format!("\x1b]{}\x07", "a;".repeat(600)).into_bytes());
+    v
+}
+
+pub fn table_case(i: u64) -> Option<Case> {
+    let ops = table_ops();
+    let n = ops.len() as u64;
+    if i >= 3 * n {
+        return None;
+    }
+    let op = &ops[(i % n) as usize];
+    let pre: &[u8] = match i / n {
+        0 => b"",
+        1 => b"\x1b[31;44mab\xe4\xb8\x96cd\r\nefgh\x1b[2;3r\x1b[?6h\x1b[1;2H\x1b7",
+        _ => b"\x1b[?1049h\x1b[1mwxyz123\x1b[2;2H\x1b[?25l\x1b[?1000h",
+    };
+    let mut lines = vec!["NEW 4 6 3 1".to_string()];
+    if !pre.is_empty() {
+        lines.push(format!("P {}", hex(pre)));
+    }
+    lines.push("DUMP".into());
+    lines.push("LOG".into());
+    lines.push("VNEW".into());
+    lines.push(format!("P {}", hex(op)));
+    lines.push(format!("VP {}", hex(op)));
+    lines.push("DUMP".into());
+    lines.push("LOG".into());
+    lines.push("FMT state".into());
+    Some(Case { lines })
 }
 
 pub fn family(name: &str) -> fn(&mut Rng) -> Case {
